@@ -7,8 +7,9 @@ import PdshVerif.Cbuf.Whole
 namespace PdshVerif.Cbuf
 
 /-- once the buffer fits the request or is at its maximum, `maybeGrow` for a smaller request is a no-op -/
-theorem maybeGrow_noop {c : Cbuf} (n : Nat) (h : n ≤ c.size - c.used ∨ c.size = c.maxsize) :
-    maybeGrow c n = (c, c.size - c.used) := by
+theorem maybeGrow_noop {c : Cbuf} (n : Nat) (h : n ≤ c.size - c.used ∨ c.size = c.maxsize)
+    (pol : Policy := chunkPolicy) :
+    maybeGrow c n pol = (c, c.size - c.used) := by
   unfold maybeGrow
   have : ¬ (n > c.size - c.used ∧ c.size < c.maxsize) := by omega
   simp [this]
@@ -19,16 +20,16 @@ theorem writer_mem_all {c : Cbuf} (hi : Inv c) (bs : List UInt8) (hpos : 0 < bs.
     (hfit : match c.mode with
       | .noDrop => bs.length ≤ c.size - c.used
       | .wrapOnce => bs.length ≤ c.size
-      | .wrapMany => True) :
-    let r := writer c bs.length (.mem bs)
+      | .wrapMany => True) (pol : Policy := chunkPolicy) [Admissible pol] :
+    let r := writer c bs.length (.mem bs) pol
     Inv r.c ∧ r.c.size = c.size ∧ r.c.mode = c.mode ∧ r.c.minsize = c.minsize ∧ r.c.maxsize = c.maxsize ∧
     r.c.used = min (c.used + bs.length) c.size ∧
     r.ndropped = bs.length - (c.size - c.used) ∧
     contents r.c = (contents c ++ bs).drop ((contents c ++ bs).length - c.size) ∧
     whole r.c = Spec.lastN c.size (whole c ++ bs) := by
-  have hww := writer_whole hi bs.length hpos (.mem bs) (by simp [Src.ok])
-  obtain ⟨_, hcore⟩ := writer_ok hi bs.length hpos (.mem bs) (by simp [Src.ok])
-  rw [maybeGrow_noop bs.length hng] at hcore
+  have hww := writer_whole hi bs.length hpos (.mem bs) (by simp [Src.ok]) pol
+  obtain ⟨_, hcore⟩ := writer_ok hi bs.length hpos (.mem bs) (by simp [Src.ok]) pol
+  rw [maybeGrow_noop bs.length hng pol] at hcore
   simp only at hcore
   have hel : effLen c bs.length = some bs.length := by
     unfold effLen
@@ -48,7 +49,7 @@ theorem writer_mem_all {c : Cbuf} (hi : Inv c) (bs : List UInt8) (hpos : 0 < bs.
   rotate_left
   · rw [hww, e1, e4, Int.toNat_natCast]
     simp only [Src.bytes, List.take_length]
-  have := contents_length (writer c bs.length (.mem bs)).c
+  have := contents_length (writer c bs.length (.mem bs) pol).c
   rw [e8] at this
   simp only [List.length_drop, List.length_append, contents_length] at this
   omega
@@ -88,9 +89,9 @@ end PdshVerif.Cbuf
 
 namespace PdshVerif.Cbuf
 
-theorem maybeGrow_fst (c0 : Cbuf) (len : Nat) :
-    (if len > c0.size - c0.used ∧ c0.size < c0.maxsize then (grow c0 (len - (c0.size - c0.used))).1 else c0) =
-      (maybeGrow c0 len).1 := by
+theorem maybeGrow_fst (c0 : Cbuf) (len : Nat) (pol : Policy := chunkPolicy) :
+    (if len > c0.size - c0.used ∧ c0.size < c0.maxsize then (grow c0 (len - (c0.size - c0.used)) pol).1 else c0) =
+      (maybeGrow c0 len pol).1 := by
   by_cases h : len > c0.size - c0.used ∧ c0.size < c0.maxsize
   · simp only [maybeGrow, h, and_self, if_true]
   · simp only [maybeGrow, h, if_false]
@@ -102,12 +103,12 @@ theorem writeLine_core {c : Cbuf} (hi : Inv c) (psrc : List UInt8) (needNl : Boo
     (hfit : match c.mode with
       | .noDrop => total ≤ c.size - c.used
       | .wrapOnce => total ≤ c.size
-      | .wrapMany => total ≤ c.size) :
+      | .wrapMany => total ≤ c.size) (pol : Policy := chunkPolicy) [Admissible pol] :
     let r1 := if psrc.length > 0 then
-        let r := writer c psrc.length (.mem psrc); (r.c, r.ndropped)
+        let r := writer c psrc.length (.mem psrc) pol; (r.c, r.ndropped)
       else (c, 0)
     let r2 := if needNl then
-        let r := writer r1.1 1 (.mem [10]); (r.c, r.ndropped)
+        let r := writer r1.1 1 (.mem [10]) pol; (r.c, r.ndropped)
       else (r1.1, 0)
     Inv r2.1 ∧ r2.1.size = c.size ∧ r2.1.mode = c.mode ∧ r2.1.minsize = c.minsize ∧ r2.1.maxsize = c.maxsize ∧
     r1.2 + r2.2 = total - (c.size - c.used) ∧
@@ -118,14 +119,14 @@ theorem writeLine_core {c : Cbuf} (hi : Inv c) (psrc : List UInt8) (needNl : Boo
   have hcl := contents_length c
   -- first call
   have h1 : ∃ c1 d1, (if psrc.length > 0 then
-        let r := writer c psrc.length (.mem psrc); (r.c, r.ndropped) else (c, 0)) = (c1, d1) ∧
+        let r := writer c psrc.length (.mem psrc) pol; (r.c, r.ndropped) else (c, 0)) = (c1, d1) ∧
       Inv c1 ∧ c1.size = c.size ∧ c1.mode = c.mode ∧ c1.minsize = c.minsize ∧ c1.maxsize = c.maxsize ∧
       c1.used = min (c.used + psrc.length) c.size ∧ d1 = psrc.length - (c.size - c.used) ∧
       contents c1 = (contents c ++ psrc).drop ((contents c ++ psrc).length - c.size) ∧
       whole c1 = Spec.lastN c.size (whole c ++ psrc) := by
     by_cases hp : psrc.length > 0
     · have hw := writer_mem_all hi psrc hp (by omega)
-        (by cases hm : c.mode <;> simp only [hm] at hfit ⊢ <;> omega)
+        (by cases hm : c.mode <;> simp only [hm] at hfit ⊢ <;> omega) pol
       simp only [hp, if_true]
       exact ⟨_, _, rfl, hw.1, hw.2.1, hw.2.2.1, hw.2.2.2.1, hw.2.2.2.2.1, hw.2.2.2.2.2.1, hw.2.2.2.2.2.2.1,
         hw.2.2.2.2.2.2.2.1, hw.2.2.2.2.2.2.2.2⟩
@@ -148,7 +149,7 @@ theorem writeLine_core {c : Cbuf} (hi : Inv c) (psrc : List UInt8) (needNl : Boo
     have hw := writer_mem_all hi1 [10] (by simp)
       (by simp only [List.length_cons, List.length_nil]; rw [hs1, hu1, hmax1]; omega)
       (by rw [hm1]; cases hm : c.mode <;> simp only [hm] at hfit ⊢ <;>
-            simp only [List.length_cons, List.length_nil] <;> (try rw [hs1, hu1]) <;> omega)
+            simp only [List.length_cons, List.length_nil] <;> (try rw [hs1, hu1]) <;> omega) pol
     simp only [List.length_cons, List.length_nil, Nat.zero_add] at hw
     obtain ⟨w1, w2, w3, w4, w5, _, w7, w8, w9⟩ := hw
     refine ⟨w1, by rw [w2, hs1], by rw [w3, hm1], by rw [w4, hmin1], by rw [w5, hmax1], ?_, ?_, ?_⟩
@@ -174,14 +175,14 @@ theorem lastN_drop_prefix (a b : List UInt8) (k n : Nat) (hk : k ≤ a.length)
   conv => rhs; rw [e]
   rw [lastN_of_tail_ge _ _ _ h]
 
-theorem writeLine_refines {c0 : Cbuf} (hi : Inv c0) (s : List UInt8) :
-    Spec.writeLine (abs c0) s (writeLine c0 s).2.2.size =
-      some ((writeLine c0 s).1, (writeLine c0 s).2.1, abs (writeLine c0 s).2.2) ∧
-    Inv (writeLine c0 s).2.2 ∧
-    whole (writeLine c0 s).2.2 = Spec.lastN (writeLine c0 s).2.2.size
-      (whole c0 ++ if (writeLine c0 s).1 < 0 then [] else
+theorem writeLine_refines {c0 : Cbuf} (hi : Inv c0) (s : List UInt8) (pol : Policy := chunkPolicy) [Admissible pol] :
+    Spec.writeLine (abs c0) s (writeLine c0 s pol).2.2.size =
+      some ((writeLine c0 s pol).1, (writeLine c0 s pol).2.1, abs (writeLine c0 s pol).2.2) ∧
+    Inv (writeLine c0 s pol).2.2 ∧
+    whole (writeLine c0 s pol).2.2 = Spec.lastN (writeLine c0 s pol).2.2.size
+      (whole c0 ++ if (writeLine c0 s pol).1 < 0 then [] else
         (if s.length = 0 ∨ s.getLast? ≠ some 10 then s ++ [10] else s)) := by
-  have hgw0 : ∀ len, whole (maybeGrow c0 len).1 = whole c0 := fun len => maybeGrow_whole hi len
+  have hgw0 : ∀ len, whole (maybeGrow c0 len pol).1 = whole c0 := fun len => maybeGrow_whole hi len pol
   unfold writeLine
   simp only [maybeGrow_fst]
   -- the line actually appended
@@ -190,10 +191,10 @@ theorem writeLine_refines {c0 : Cbuf} (hi : Inv c0) (s : List UInt8) :
     rw [← hnl]; simp
   simp only [hnl']
   generalize hlen : (if needNl = true then s.length + 1 else s.length) = len
-  have hg := maybeGrow_ok hi len
+  have hg := maybeGrow_ok hi len pol
   have hgw := hgw0 len
-  generalize (maybeGrow c0 len).1 = c at hg hgw
-  generalize (maybeGrow c0 len).2 = nf at hg
+  generalize (maybeGrow c0 len pol).1 = c at hg hgw
+  generalize (maybeGrow c0 len pol).2 = nf at hg
   have hci := hg.inv
   have hsp := hci.spos; have hu := hci.used
   have hcl : (contents c0).length = c.used := by rw [contents_length, hg.used]
@@ -256,16 +257,16 @@ theorem writeLine_refines {c0 : Cbuf} (hi : Inv c0) (s : List UInt8) :
     have hcore := writeLine_core hci (s.drop nd) needNl (len - nd) htot
       (by rw [← hnd]; split <;> omega)
       (by rw [← hnd]; split <;> omega)
-      (by cases hm : c.mode <;> simp only [hm] at hfitm ⊢ <;> rw [← hnd] <;> split <;> omega)
+      (by cases hm : c.mode <;> simp only [hm] at hfitm ⊢ <;> rw [← hnd] <;> split <;> omega) pol
     rw [hpl] at hcore
     simp only [] at hcore
     generalize hr1 : (if s.length - nd > 0 then
-        ((writer c (s.length - nd) (.mem (s.drop nd))).c, (writer c (s.length - nd) (.mem (s.drop nd))).ndropped)
+        ((writer c (s.length - nd) (.mem (s.drop nd)) pol).c, (writer c (s.length - nd) (.mem (s.drop nd)) pol).ndropped)
       else (c, 0)) = r1 at hcore
     obtain ⟨c1, d1⟩ := r1
     simp only [hr1] at hcore ⊢
     generalize hr2 : (if needNl = true then
-        ((writer c1 1 (.mem [10])).c, (writer c1 1 (.mem [10])).ndropped) else (c1, 0)) = r2 at hcore
+        ((writer c1 1 (.mem [10]) pol).c, (writer c1 1 (.mem [10]) pol).ndropped) else (c1, 0)) = r2 at hcore
     obtain ⟨c2, d2⟩ := r2
     simp only [hr2] at hcore ⊢
     obtain ⟨k1, k2, k3, k4, k5, k6, k7, k8⟩ := hcore
